@@ -7,6 +7,7 @@
 From Calamine Require Import Prelude Range Range_spec RK.
 From Calamine Require BiffSst BiffRec Meta NumFmt Cfb.
 From Calamine Require Import XlsFile XlsFile_proofs.
+From Calamine Require XlsFileCodePage_proofs.
 From Calamine Require XlsbRec XlsbRec_proofs MetaXlsb_proofs HeaderRow XlsbFile XlsbFile_proofs.
 Open Scope N_scope.
 
@@ -111,6 +112,29 @@ Example Whole_xls_nonvacuous : forall fdiv100 : N -> N,
   wr_names (spec_result ex_wb ex_ch) = [([110], [128512; 33; 66; 36; 49])].
 Proof. exact example_whole. Qed.
 
+(* the same workbook with a CodePage record (0x0042) among the globals: XlsFile.gitem_ok /
+   Meta.xjunk_ok admit one of ANY value wherever an ignorable record may stand, so
+   Whole_xls_file_main quantifies over it (audit-2 finding XLS-1: the reader decoded every string
+   of a BIFF8 workbook through the code page; repaired).  1252 is what JExcelApi writes
+   (tests/sheet_name_parsing.xls), 54321 is unknown to every decoder table; the last variant
+   carries two CodePage records. *)
+Example Whole_xls_codepage_nonvacuous : forall fdiv100 : N -> N,
+  Forall (fun cp =>
+            xfile_legal fdiv100 BiffRec_proofs.id_decode ex_wb (XlsFileCodePage_proofs.cp_choice cp) /\
+            xls_open_model fdiv100 BiffRec_proofs.id_decode (fun _ => []) 1
+                           (xls_file_write ex_wb (XlsFileCodePage_proofs.cp_choice cp)) =
+            Ok (spec_result ex_wb (XlsFileCodePage_proofs.cp_choice cp)) /\
+            spec_result ex_wb (XlsFileCodePage_proofs.cp_choice cp) = spec_result ex_wb ex_ch)
+         [1252; 932; 1200; 65001; 54321] /\
+  xfile_legal fdiv100 BiffRec_proofs.id_decode ex_wb XlsFileCodePage_proofs.cp_choice_two /\
+  xls_open_model fdiv100 BiffRec_proofs.id_decode (fun _ => []) 1
+                 (xls_file_write ex_wb XlsFileCodePage_proofs.cp_choice_two) =
+  Ok (spec_result ex_wb XlsFileCodePage_proofs.cp_choice_two) /\
+  spec_result ex_wb XlsFileCodePage_proofs.cp_choice_two = spec_result ex_wb ex_ch /\
+  firstn 12 (skipn 20 (xls_stream_write ex_wb (XlsFileCodePage_proofs.cp_choice 1252))) =
+    [225; 0; 2; 0; 176; 4; 66; 0; 2; 0; 228; 4].
+Proof. exact XlsFileCodePage_proofs.example_whole_codepage. Qed.
+
 (* ---------------------------------------------------------------------------------------- *)
 (* XLSB, PARTIAL: the parts of a package read together (C16_report_xlsb + C03_xlsb_workbook_main):
    Xlsb::new on the relationships and workbook.bin, the shared strings, then worksheet_range_ref
@@ -177,5 +201,6 @@ Print Assumptions Whole_xls_globals_positions.
 Print Assumptions Whole_xls_number_date_iff_style.
 Print Assumptions Whole_xls_positions_met.
 Print Assumptions Whole_xls_nonvacuous.
+Print Assumptions Whole_xls_codepage_nonvacuous.
 Print Assumptions Whole_xlsb_package_partial.
 Print Assumptions Whole_xlsb_nonvacuous.
